@@ -328,6 +328,32 @@ func (w *World) Solve(ob *Obligation, cfg *SolveConfig, idx int) {
 			}
 		}
 		rcancel()
+		// stage 3: nobody answered within the timeout. A loaded machine must not turn a
+		// dischargeable obligation into an alarm: one more race with four times the budget.
+		stillOpen := true
+		for _, o := range outs {
+			if o.answer == "sat" || o.answer == "unsat" {
+				stillOpen = false
+			}
+		}
+		if stillOpen && !cfg.AllAgree {
+			rctx3, rcancel3 := context.WithCancel(context.Background())
+			ch3 := make(chan solveOut, 3)
+			long := cfg.Timeout * 4
+			go func() { ch3 <- runSolverCtx(rctx3, solvers[0], script, long, true, cfg.Dir, tag+"c") }()
+			go func() { ch3 <- runSolverCtx(rctx3, solvers[1], script, long, false, cfg.Dir, tag+"c") }()
+			go func() { ch3 <- runSolverCtx(rctx3, solvers[2], scriptC, long, false, cfg.Dir, tag+"c") }()
+			for i := 0; i < 3; i++ {
+				o := <-ch3
+				if o.answer == "cancelled" {
+					continue
+				}
+				if decide(o) {
+					rcancel3()
+				}
+			}
+			rcancel3()
+		}
 	}
 	ob.Time = time.Since(t0).Seconds()
 	var sat, unsat []string
